@@ -86,6 +86,13 @@ def statements(qc):
             "join-using": lambda: qc.from_(t).join(x).using("a").select(t.a, x.b),
             "subquery-from-in": lambda: qc.from_(qc.from_(t).select(t.a, t.b).where(t.c == 1)).select("a").where(T.Field("a").isin(qc.from_(t).select(t.z))),
             "cte": lambda: qc.with_(qc.from_(t).select(t.a).where(t.b == 1), "c").from_(P.AliasedQuery("c")).join(t).on(P.AliasedQuery("c").a == t.a).select(t.b),
+            # a WITH body that is a set operation reading the table (the shape of every recursive CTE: anchor UNION ALL step), and one nested below it
+            "cte-setop-body": lambda: qc.with_(qc.from_(t).select(t.a).where(t.b == 1).union_all(qc.from_(t).join(x).on(t.a == x.a).select(x.a)), "c")
+                               .from_(P.AliasedQuery("c")).select("a"),
+            "cte-setop-body-insert": lambda: qc.with_(qc.from_(t).select(t.a).union(qc.from_(x).select(x.a)).intersect(qc.from_(t).select(t.z)), "c")
+                                      .into(u).from_(P.AliasedQuery("c")).select("a"),
+            "cte-in-subquery": lambda: qc.from_(qc.with_(qc.from_(t).select(t.a).except_of(qc.from_(t).select(t.b)), "c").from_(P.AliasedQuery("c")).select("a")
+                                                .as_("sq")).select("a"),
             "update-set": lambda: qc.update(t).set(t.a, t.b + 1).set(t.c, x.c).from_(x).where(t.d == x.d),
             # a multi-table UPDATE whose SET target is a column of the JOINED table (the replaced table is not the updated one)
             "update-set-joined-target": lambda: qc.update(x).join(t).on(t.a == x.a).set(t.c, x.b + t.d).set(x.e, t.f).where(t.g == 1),
